@@ -185,7 +185,7 @@ func assignProps(p *Prog, encs []*Enc) {
 						set[pr] = true
 					}
 				}
-			case "inv-init", "inv-preserve", "cand", "decreases", "cover", "typeinv", "typeinv-new", "pure", "preserved":
+			case "inv-init", "inv-preserve", "cand", "decreases", "cover", "typeinv", "typeinv-new", "pure", "preserved", "unsafe":
 				for pr := range claimedIn[e.name] {
 					set[pr] = true
 				}
